@@ -119,7 +119,13 @@ def run_ties(prop=None):
         st = translate.generate(omit_defs=omit_defs, omit_thms=omit_thms)
         units = sorted(set(v['unit'] for v in st.values()) & (wanted if wanted is not None else set(v['unit'] for v in st.values())))
         changed = False
+        # dependency order: the handler's tie imports the Position ties; after any omission, regenerate before going on
+        units = sorted(units, key=lambda x: ['Position', 'Kernels', 'Plan', 'Handler'].index(x) if x in ('Position', 'Kernels', 'Plan', 'Handler') else 99)
+        if 'Handler' in units and 'Position' not in units:
+            units = ['Position'] + units
         for u in units:
+            if changed:
+                break
             ok, out = _build(['QsGen.%s' % u])
             if not ok:
                 errs, out2 = _lean_errors(os.path.join('QsGen', u + '.lean'))
